@@ -501,6 +501,13 @@ def check(ctx, replay=None):
         for pre in itertools.product(range(n), repeat=k):
             # a prefix can be extended to a weak order unless it already skips too many ranks; let both sides filter
             jobs.append((r, c, mode, "ENUM d %s %d %d %d %s" % (mode, r, c, k, " ".join(map(str, pre))), ce))
+    if ctx.tier == "quick":
+        # a seed-dependent sample of the thorough sweeps: all weak orders of 3x3 / 2x4 / 4x2 that extend a random prefix
+        # (the centre square of a 3x3 grid reaches every leaf of the interior decision tree)
+        for (r, c, k, cnt) in [(3, 3, 3, 3), (2, 4, 3, 2), (4, 2, 3, 2)]:
+            for _ in range(cnt):
+                pre = [ctx.rng.randrange(0, 4) for _ in range(k)]
+                jobs.append((r, c, "b sampled", "ENUM d b %d %d %d %s" % (r, c, k, " ".join(map(str, pre))), 2000))
     nz_examples = {}
     mism = []     # (R line, hans, oans)
 
@@ -549,7 +556,7 @@ def check(ctx, replay=None):
     ties_total = 0
     for (r, c, mode, cnt, nontriv, zero, ties, bad) in results:
         ties_total += ties
-        key = "rect:enum %dx%d both modes" % (r, c)
+        key = "rect:enum %dx%d both modes%s" % (r, c, " (sampled prefixes)" if "sampled" in mode else "")
         per_shape[key] = per_shape.get(key, 0) + cnt
         res.evaluations += 2 * cnt
         res.traces_validated += 2 * cnt
